@@ -1,7 +1,10 @@
 import CstModel.Props.C20
+import CstModel.Props.GenBuilder2
 open Cst.C20
 #print axioms fail_no_change
 #print axioms static_never_interns
 #print axioms no_fault
 #print axioms resume_equiv
 #print axioms finished_tree_equiv
+#print axioms Cst.Gen.b_token_raw
+#print axioms Cst.Gen.b_static_token_raw
